@@ -245,6 +245,7 @@ pub fn on_server_message(sim: &mut Sim, c: usize, ch: usize, bytes: &[u8], id: u
             msg_id: id,
             flush_tick: t,
             upd_before,
+            fresh: true,
             stamp: m.tick,
             delivered: false,
             dropped: false,
@@ -261,6 +262,17 @@ pub fn on_server_message(sim: &mut Sim, c: usize, ch: usize, bytes: &[u8], id: u
 // After every server frame
 
 pub fn after_server_frame(sim: &mut Sim, ticked: bool, t: u32, injected: bool) {
+    // C04: "replicated up to the tick in which the event was sent" includes the update message of the very
+    // frame that flushed the event, wherever the library placed it in that frame's output.
+    for cl in sim.clients.iter_mut() {
+        if let Some(sess) = cl.sess.as_mut() {
+            let n = sess.upd_sent.len();
+            for e in sess.sev_sent.values_mut().flatten().filter(|e| e.fresh) {
+                e.fresh = false;
+                e.upd_before = n;
+            }
+        }
+    }
     // C08: the visibility query reports the most recent setting of every live entity.
     if sim.prof.app.vis != 0 {
         for c in 0..sim.clients.len() {
